@@ -34,55 +34,54 @@ def check(ctx):
         raise AnchorError("Comparisons is not a literal list")
     nc = ctx.fn("needing", "Need.Check")
     V = FuncView(ctx, nc, exc="calls")   # arithmetic in the try bodies may raise TypeError
-    tests = [(t, const_str(t.ast.test.comparators[0])) for t in V.cfg.nodes if t.kind == "test" and isinstance(t.ast.test, ast.Compare)
-             and dotted(t.ast.test.left) == "comparison" and isinstance(t.ast.test.ops[0], ast.Eq)]
-    words = [w for _, w in tests]
-    ctx.check(sorted(words) == sorted(comps) and len(set(words)) == len(words), "T6-table", nc,
-              "Need.Check handles %s; Comparisons = %s" % (sorted(words), sorted(comps)),
+    # Need.Check is decided by PARTIAL EVALUATION: for each comparison word w the function is specialised to
+    # comparison == w (tests on `comparison` fold, straight-line locals are carried along each feasible path) and what it
+    # returns is compared with what w denotes.  Independent of the dispatch's spelling (elif chain, early returns, flags).
+    from ..rules import peval
+
+    def outcomes(w):
+        return [(k, src(e).replace("(", "").replace(")", "") if e is not None else None, h) for k, e, h in peval(V, {"comparison": w})]
+    unknown = outcomes("\0no-such-comparison")
+    ctx.check(bool(unknown) and all(k == "return" and e == "False" for k, e, h in unknown), "T9-op", nc, "unknown comparison -> False", "")
+    handled = [w for w in comps if outcomes(w) != unknown]
+    ctx.check(sorted(handled) == sorted(comps), "T6-table", nc,
+              "Need.Check handles %s; Comparisons = %s" % (sorted(handled), sorted(comps)),
               "a comparison word the builder accepts has no (or a duplicate) implementation in Need.Check: conditions "
               "using it are always false")
     for fname in ("parseComparisonOpt", "parseComparisonReq"):
         f = ctx.fn("building", "Builder." + fname)
         ok = any(isinstance(n, ast.Compare) and dotted(n.left) == "comparison" and dotted(n.comparators[0]) == "Comparisons" for n in ast.walk(f))
         ctx.check(ok, "T6-table", f, "%s tests membership in Comparisons" % fname, "the parser must accept exactly the implemented comparisons")
-    rets = [n for n in V.cfg.nodes if n.kind == "return"]
-    ctx.check(len(rets) == 1 and dotted(rets[0].ast.value) == "result", "T9-op", nc, "Check returns result", "")
-    for t, w in tests:
-        stores = [n for n in V.stores("result") if V.dominated_by_edge([n], t, "T")]
-        prior = [t2 for t2, w2 in tests if t2 is not t and V.dominated_by_edge([t], t2, "F")]
+    band = BAND.replace("(", "").replace(")", "")
+    for w in comps:
+        got = outcomes(w)
+        normal = [e for k, e, h in got if k == "return" and not h]
+        alt = [e for k, e, h in got if k == "return" and h]
+        other = [x for x in got if x[0] != "return"]
         if w in OPS:
-            ok = len(stores) == 1 and isinstance(stores[0].ast.value, ast.Compare) and len(stores[0].ast.value.ops) == 1 and \
-                isinstance(stores[0].ast.value.ops[0], OPS[w]) and dotted(stores[0].ast.value.left) == "state" and \
-                dotted(stores[0].ast.value.comparators[0]) == "goal"
-            ctx.check(ok, "T9-op", t.ast, "%r -> %s" % (w, src(stores[0].ast.value) if stores else "?"),
+            ok = bool(normal) and all(e == "state %s goal" % w for e in normal + alt) and not other
+            ctx.check(ok, "T9-op", nc, "%r -> %s" % (w, sorted(set(normal + alt)) or "?"),
                       "the condition `state %s goal` must be true exactly when state %s goal" % (w, w))
-        else:
+        elif w in ("==", "!="):
             neg = w == "!="
-            main = [s for s in stores if not any(s.id in V.cfg.reachable(h.id) for h in V.cfg.nodes if h.kind == "except")]
-            alt = [s for s in stores if s not in main]
-            ok = len(main) == 1 and len(alt) == 1
-            if ok:
-                v = main[0].ast.value
-                if neg:
-                    ok = isinstance(v, ast.UnaryOp) and isinstance(v.op, ast.Not)
-                    v = v.operand if ok else v
-                ok = ok and src(v).replace("(", "").replace(")", "") == BAND.replace("(", "").replace(")", "")
-                a = alt[0].ast.value
-                ok = ok and isinstance(a, ast.Compare) and isinstance(a.ops[0], ast.NotEq if neg else ast.Eq) and \
-                    {dotted(a.left), dotted(a.comparators[0])} == {"goal", "state"}
-                hs = [h for h in V.cfg.nodes if h.kind == "except" and alt[0].id in V.cfg.reachable(h.id)]
-                ok = ok and bool(hs) and all(dotted(h.ast.type) == "TypeError" for h in hs)
-            ctx.check(ok, "T9-op", t.ast, "%r -> %s%s, TypeError -> goal %s state" % (w, "not " if neg else "", BAND, w),
+            want_main = ("not " if neg else "") + band
+            want_alt = {"goal %s state" % w, "state %s goal" % w}
+            ok = bool(normal) and all(e == want_main for e in normal) and bool(alt) and all(e in want_alt for e in alt) and not other
+            ctx.check(ok, "T9-op", nc, "%r -> %s%s, TypeError -> goal %s state (got %s / %s)" % (w, "not " if neg else "", BAND, w, sorted(set(normal)), sorted(set(alt))),
                       "'%s' must mean %s(goal-|tol| <= state <= goal+|tol|) for numbers and %s otherwise" %
                       (w, "not " if neg else "", "inequality" if neg else "equality"))
-    els = [n for n in V.stores("result") if isinstance(n.ast.value, ast.Constant) and n.ast.value.value is False]
-    ctx.check(bool(els) and all(V.dominated_by_edge([els[0]], t, "F") for t, _ in tests), "T9-op", nc, "unknown comparison -> False", "")
+        else:
+            ctx.check(False, "T6-table", nc, "comparison word %r has no documented meaning in this check" % w, "")
+    hs = [h for h in V.cfg.nodes if h.kind == "except"]
+    ctx.check(all(dotted(h.ast.type) == "TypeError" for h in hs), "T9-op", nc, "only TypeError is handled in Need.Check", "")
     for cname, want in (("NeedDirect", ["state[stateField]", "comparison", "goal", "tolerance"]),
                         ("NeedIndirect", ["state[stateField]", "comparison", "goal[goalField]", "tolerance"])):
         f = ctx.fn("needing", cname + ".action")
-        calls = [n for n in ast.walk(f) if isinstance(n, ast.Call) and call_name(n) == "self.Check"]
-        ok = len(calls) == 1 and [src(a) for a in calls[0].args] == want and not calls[0].keywords
         W = FuncView(ctx, f)
+        cn_ = W.calls("self.Check")
+        calls = [c for n, c in cn_]
+        # the arguments by value (a field read hoisted into a local is the same argument)
+        ok = len(calls) == 1 and [src(W.sym(a, cn_[0][0])) for a in calls[0].args] == want and not calls[0].keywords
         rets = [n for n in W.cfg.nodes if n.kind == "return"]
         ok = ok and bool(rets) and all(src(W.sym(r.ast.value, r)).startswith("self.Check(") for r in rets)
         ctx.check(ok, "T9-args", f, "%s.action returns self.Check(%s)" % (cname, ", ".join(want)),
